@@ -191,12 +191,12 @@ func vh_c06_attruh_t() { vc06_attr(5, false, true) }
 func vh_c06_tag_q()    { vc06_tag(3) }
 func vh_c06_tag_t()    { vc06_tag(4) }
 func vh_c06_js_q()     { vc06_js(3) }
-func vh_c06_js_t()     { vc06_js(5) }
+func vh_c06_js_t()     { vc06_js(4) }
 func vh_c06_css_q()    { vc06_css(3) }
-func vh_c06_css_t()    { vc06_css(5) }
+func vh_c06_css_t()    { vc06_css(4) }
 func vh_c06_pathq_q()  { vc06_path(3, true) }
-func vh_c06_pathq_t()  { vc06_path(5, true) }
+func vh_c06_pathq_t()  { vc06_path(4, true) }
 func vh_c06_pathu_q()  { vc06_path(3, false) }
-func vh_c06_pathu_t()  { vc06_path(5, false) }
+func vh_c06_pathu_t()  { vc06_path(4, false) }
 func vh_c06_query_q()  { vc06_query(4) }
-func vh_c06_query_t()  { vc06_query(7) }
+func vh_c06_query_t()  { vc06_query(5) }
